@@ -134,17 +134,35 @@ def validate_contract(m):
         doc='C13: ValueError iff a constraint of the protocol definition is broken')
 
 
-def init_contract(m):
+def none_default_fields(m):
+    """Arguments (other than tables, whose type class already includes None) whose default in the real signature is None."""
+    import inspect
+    cls = real_class(m)
+    sig = inspect.signature(cls.__init__).parameters
+    return [f.name for f in m.fields if f.wire != 'table' and f.name in sig and sig[f.name].default is None]
+
+
+def init_contract(m, defaults=False):
     """C.__init__(args): stores each argument (tables: a *fresh* empty dict when
-    none is given) and raises ValueError iff the stored values are invalid."""
+    none is given) and raises ValueError iff the stored values are invalid.
+    Two instance sets: every argument of its wire type's Python class, and (defaults=True) the arguments whose
+    default is None left at None - what the decoders do when they build the object before filling it."""
     cls = real_class(m)
     if cls.__init__ is object.__init__:
+        return None
+    nones = none_default_fields(m)
+    if defaults and not nones:
         return None
 
     def fresh_self(st, name):
         return SObj(cls, {}, provenance='param', label=name)
 
-    params = [('self', TSpec([(m.name, fresh_self)]))] + [(f.name, TYPED[f.wire]) for f in m.fields]
+    params = [('self', TSpec([(m.name, fresh_self)]))] + [(f.name, T.none if (defaults and f.name in nones) else TYPED[f.wire])
+                                                          for f in m.fields]
+    if defaults:
+        picks = lambda b: all(b.get(n) is None for n in nones)
+    else:
+        picks = lambda b: all(b.get(n) is not None for n in nones)
 
     def stored(c):
         out = {}
@@ -194,8 +212,10 @@ def init_contract(m):
 
     cases = [Case('constructed', when=lambda c: valid(c.st, m, args_as_attrs(c)), post=post, effects=effects)]
     if tables.constraints(m):
-        cases.append(Case('rejected', when=lambda c: neg(valid(c.st, m, args_as_attrs(c))), raises=ValueError))
+        cases.append(Case('rejected', when=lambda c: neg(valid(c.st, m, args_as_attrs(c))), raises=ValueError,
+                          need_cover=not defaults))     # (with the constrained arguments at None nothing may be left to reject)
     return Contract('pamqp.commands.%s.__init__' % m.name, params, cases=cases, pure=False, bounded=False, inline=('pamqp.base.Frame.validate',),
+        name='pamqp.commands.%s.__init__%s' % (m.name, '(defaults)' if defaults else ''), selector_bound=picks,
         doc='C13: construction raises ValueError iff a constraint is broken; every accepted value is stored unchanged')
 
 
@@ -267,9 +287,10 @@ def register(reg):
         reg.add(unmarshal_contract(m))
         if tables.constraints(m):
             reg.add(validate_contract(m))
-        ic = init_contract(m)
-        if ic is not None:
-            reg.add(ic)
+        for variant in (False, True):
+            ic = init_contract(m, defaults=variant)
+            if ic is not None:
+                reg.add(ic)
 
 
 def names(kind):
@@ -283,4 +304,6 @@ def names(kind):
             out.append('pamqp.commands.%s.validate' % m.name)
         elif kind == 'init' and real_class(m).__init__ is not object.__init__:
             out.append('pamqp.commands.%s.__init__' % m.name)
+            if none_default_fields(m):
+                out.append('pamqp.commands.%s.__init__(defaults)' % m.name)
     return out
